@@ -12,6 +12,8 @@ import (
 var ZZEntries = map[string]func([]int){
 	"HPathID":    func(a []int) { HPathID(a[0], a[1]) },
 	"HParsePath": func(a []int) { HParsePath(a[0], a[1]) },
+	"HSpecFault":  func(a []int) { HSpecFault(a[0]) },
+	"HSpecScalar": func(a []int) { HSpecScalar(a[0], a[1]) },
 }
 
 func key(n, slash int) string {
